@@ -37,7 +37,9 @@ func PadPKCS7(buf []byte, size int) ([]byte, error) {
 	bufLen := len(buf)
 	padLen := size - bufLen%size
 	padding := bytes.Repeat([]byte{byte(padLen)}, padLen)
-	return append(buf, padding...), nil
+	// Cap the capacity so that append always copies: the padding must not be
+	// written into spare capacity of the caller's buffer.
+	return append(buf[:bufLen:bufLen], padding...), nil
 }
 
 // UnpadPKCS7 removes PKCS#7 from a message.
